@@ -269,7 +269,9 @@ func (m *monitor) judgeDelete(ev *sim.Event, after []revInfo, limit int64, hasLi
 	target := m.info(ev.Before)
 	before := append([]revInfo{target}, after...)
 	sort.Slice(before, func(i, j int) bool { return before[i].Name < before[j].Name })
-	defer delete(m.bound, target.Name)
+	if ev.After == nil {
+		defer delete(m.bound, target.Name) // really gone (no finalizer held it)
+	}
 
 	if !hasLimit {
 		// the CRD defaults the field to 1; the harness' user always sets it
